@@ -193,6 +193,14 @@ fn main() {
             write_ndjson(&args[3], &bad);
             println!("{} sequences {} operations {} mismatches", items.len(), ops, bad.len());
         }
+        "parse-errors" => {
+            // tsgv parse-errors <dir> <out.json>
+            exec::silence_panics();
+            let srcs = cases::load_sources(&args[2]);
+            let out: Vec<J> = srcs.iter().map(|s| api::parse_errors(s)).collect();
+            std::fs::write(&args[3], serde_json::to_string(&out).unwrap()).unwrap();
+            println!("{} sources", out.len());
+        }
         "retabs" => {
             // tsgv retabs <pool.json> <out.json>: tables of every (regex, subject) of a pool (oracle: regex crate)
             let pool: J = serde_json::from_str(&std::fs::read_to_string(&args[2]).expect("pool")).expect("json");
